@@ -75,6 +75,11 @@ Definition days_from_civil (y m d : Z) : Z :=
   let doe := yoe * 365 + yoe / 4 - yoe / 100 + doy in
   era * 146097 + doe - 719468.
 
+Definition is_leap (y : Z) : bool := ((y mod 4 =? 0) && negb (y mod 100 =? 0)) || (y mod 400 =? 0).
+Definition days_in_month (y m : Z) : Z :=
+  if m =? 2 then (if is_leap y then 29 else 28)
+  else if (m =? 4) || (m =? 6) || (m =? 9) || (m =? 11) then 30 else 31.
+
 Definition num2 (a b : byte) : option Z :=
   match digit_val a, digit_val b with Some x, Some y => Some (x * 10 + y) | _, _ => None end.
 
@@ -88,22 +93,26 @@ Definition parse_rfc3339 (s : bytes) : option (option vtime) :=
         match num2 y1 y2, num2 y3 y4, num2 m1 m2, num2 a1 a2, num2 h1 h2, num2 n1 n2, num2 s1 s2 with
         | Some ya, Some yb, Some mo, Some da, Some ho, Some mi, Some se =>
             let secs := days_from_civil (ya * 100 + yb) mo da * 86400 + ho * 3600 + mi * 60 + se in
-            let valid := (1 <=? mo) && (mo <=? 12) && (1 <=? da) && (da <=? 28) && (ho <=? 23) && (mi <=? 59) && (se <=? 59) in
+            let valid := (1 <=? mo) && (mo <=? 12) && (1 <=? da) && (da <=? days_in_month (ya * 100 + yb) mo)
+                         && (ho <=? 23) && (mi <=? 59) && (se <=? 59) in
             if valid then
               match rest with
               | [z] => if Byte.eqb z x5a then Some (Some {| vsecs := secs; vnanos := 0; voff := 0 |}) else None
               | [sg; o1; o2; oc; o3; o4] =>
                   match num2 o1 o2, num2 o3 o4 with
                   | Some oh, Some om =>
-                      if Byte.eqb oc x3a && (Byte.eqb sg x2b || Byte.eqb sg x2d) && (oh <=? 23) && (om <=? 59) then
-                        let off := (if Byte.eqb sg x2b then 1 else -1) * (oh * 3600 + om * 60) in
-                        Some (Some {| vsecs := secs - off; vnanos := 0; voff := 0 |})
+                      if Byte.eqb oc x3a && (Byte.eqb sg x2b || Byte.eqb sg x2d) then
+                        (* time.Parse rejects only offset hours above 24 and minutes above 60 *)
+                        if (oh <=? 24) && (om <=? 60) then
+                          let off := (if Byte.eqb sg x2b then 1 else -1) * (oh * 3600 + om * 60) in
+                          Some (Some {| vsecs := secs - off; vnanos := 0; voff := 0 |})
+                        else Some None
                       else None
                   | _, _ => None
                   end
               | _ => None
               end
-            else None          (* days 29-31 and invalid fields: outside the model *)
+            else Some None     (* a field out of range (month 13, 30 February, hour 24, second 60): time.Parse fails, t stays zero *)
         | _, _, _, _, _, _, _ => None
         end
       else None
